@@ -26,9 +26,13 @@ class DeflateZipModel(JWEZipModel):
             decompressor = zlib.decompressobj(-zlib.MAX_WBITS)
         try:
             value = decompressor.decompress(s, MAX_SIZE)
+            # Output can still be pending although all input was consumed, and the
+            # unconsumed input may hold nothing but the end of the stream: ask for
+            # one more byte instead of looking at ``unconsumed_tail``.
+            exceeded = bool(decompressor.decompress(decompressor.unconsumed_tail, 1))
         except zlib.error as error:
             raise DecodeError(f"Invalid compressed data: {error}")
-        if decompressor.unconsumed_tail:
+        if exceeded:
             raise ExceededSizeError(f"Decompressed string exceeds {MAX_SIZE} bytes")
         return value
 
